@@ -850,6 +850,14 @@ func (env *Env) call(e *Expr) Term {
 			t.T = env.resolveType("object.Object")
 		}
 		return t
+	case "count":
+		// count(name): ghost counter declared by "countstores name component"
+		if len(e.Args) != 1 || e.Args[0].Op != "ident" {
+			efail("count(name)")
+		}
+		g := "Gcnt_" + e.Args[0].Name
+		vc.compDecl(g, SInt)
+		return mk(vc.get(env.heap(), g), SInt).withType(types.Typ[types.Int])
 	case "nerrs":
 		vc.compDecl("Gerr_n", SInt)
 		return mk(vc.get(env.heap(), "Gerr_n"), SInt).withType(types.Typ[types.Int])
